@@ -50,7 +50,7 @@ TABLE = {
             "stored run fields follow has_run(); tag data is recorded under run_data.run_id. Necessary structure for "
             "continuing a run across reconnects, for all paths rather than the one scenario the suite plays.",
             "Decides structure only: crash points without shutdown, database contents and message arrival order after the "
-            "reconnect are outside static reach. (R28f) the recent-engine row is written whenever the active run changes; (R28g) every tag-update message carries the runner's run id."),
+            "reconnect are outside static reach. (R28f) the recent-engine row is written whenever the active run changes; (R28g) every tag-update message carries the runner's run id. (R28h) pending tag values are flushed before the engine data is dropped (disconnect, shutdown)."),
     "C16": ("interprocedural kind (dimension/clock) analysis of every time argument that reaches a tag writer",
             "A kind lattice {TICK_TIME, COUNTER, WALL, MONO, DURATION, CONST, UNKNOWN} is propagated from Engine.tick's "
             "tick_time parameter through parameters, attributes and returns (global fix-point over resolved call sites); "
@@ -110,7 +110,7 @@ TABLE = {
             "one distinct NotificationScope member (together covering the enum) with its scope-specific conjunct; the "
             "result must be fetched for exactly these selections by an IN query; preferences come from the topic-filtered "
             "query; the new contributor's own subscriptions are skipped before posting.",
-            "Decides selection structure only; database contents, duplicate subscription rows and push delivery are outside. (R33d) one row per browser subscription (look-up before insert); (R33e) stored contributors are those of the stored run only and are cleared without a run."),
+            "Decides selection structure only; database contents, duplicate subscription rows and push delivery are outside. (R33d) one row per browser subscription (look-up before insert); (R33e) stored contributors are those of the stored run only and are cleared without a run. (R33f) at most one post per endpoint and notification."),
     "C35": ("no-drop path rule on the aggregation loop",
             "Every path through the loop body of AggregatedErrorLog.aggregate_with must append the entry, merge it "
             "(count +1 and take its time) or be the equal-time redelivery branch; merging is restricted to equal message "
@@ -126,7 +126,7 @@ TABLE = {
             "Scheduling model read off CommandManager (newest request first, one generator step per tick, commands orphaned "
             "by _stop_interpreter); calls outside the domain have only the tabulated effects (evidence.call_model); timed waits "
             "are nondeterministic. set_error_state from a stopped engine breaks the invariant but is outside the property's "
-            "quantifier (recorded by the thorough tier as observation). The execution order of the commands due in one tick (newest first / appended / stable sort by a name predicate) is extracted from CommandManager.execute_commands, not assumed; an unrecognised reordering exits 2. Gating written as a module-level lookup table keyed by command is evaluated as well; (R06d) the invariant is also explored with two user requests per tick gap. Bound: union of the coarse scheduler with one request per tick gap and the exact scheduler of execute_commands with two (quick) / three (thorough) requests per gap. (R06a strict) a Restart that has begun keeps System State Restarting; (R06e) with faults explored, no run => Stopped and no pause/hold flag."),
+            "quantifier (recorded by the thorough tier as observation). The execution order of the commands due in one tick (newest first / appended / stable sort by a name predicate) is extracted from CommandManager.execute_commands, not assumed; an unrecognised reordering exits 2. Gating written as a module-level lookup table keyed by command is evaluated as well; (R06d) the invariant is also explored with two user requests per tick gap. Bound: union of the coarse scheduler with one request per tick gap and the exact scheduler of execute_commands with two (quick) / three (thorough) requests per gap. (R06a strict) a Restart that has begun keeps System State Restarting; (R06e) with faults explored, no run => Stopped and no pause/hold flag. (R06f) every run start (Start, Restart's last segment) is guarded by `not _runstate_started`."),
     "C07": ("abstract interpretation of update_calculated_tags over System State + sibling rule and model check for the Block/Scope Time gate + run-start sibling agreement",
             "Which System States let Process/Run Time advance is computed by interpreting update_calculated_tags for every "
             "state; the Block/Scope Time gate table is extracted from tags_impl and every site that leaves Running must emit a "
